@@ -26,8 +26,10 @@ WithPrio(m, p) == [m EXCEPT !.prio = p]
 WithDflt(m, d) == [m EXCEPT !.dflt = IF d = "" THEN <<>> ELSE <<d>>]
 \* (an option named twice stays twice, like in the library: such a group does not pass validation and is outside every domain)
 CcAny(ks, d, id) ==
-  LET dk   == SelectSeq(ks, LAMBDA m : m.id = d)
-      rest == SelectSeq(ks, LAMBDA m : m.id # d)
+  \* (a default is an ITEM: an option that is a sub-proposition is never treated as the default, although it may be named as one -
+  \* observation O13; the group then is a plain Any that only records the name)
+  LET dk   == SelectSeq(ks, LAMBDA m : m.id = d /\ IsAtom(m))
+      rest == SelectSeq(ks, LAMBDA m : ~(m.id = d /\ IsAtom(m)))
   IN IF d # "" /\ Len(ks) > 1 /\ dk # <<>> /\ rest # <<>>
      THEN WithDflt(MkAtLeast(1, dk \o << WithPrio(MkAtLeast(1, rest, "", 0, "Any"), -2) >>, id, 0, "Any"), d)
      ELSE WithDflt(MkAtLeast(1, ks, id, 0, "Any"), d)
